@@ -89,8 +89,8 @@ FIRST_ONLY = {
     "re_matcher::ReMatcher::match_at": "the program ends with EndProgram, so the first result of the top-level iterator is a complete match and the preferred one; no later result is asked for at this start position",
     "re_matcher::ReMatcher::check_preconditions": "a precondition only asks whether its operation matches at all at a position",
     "re_matcher::ReMatcher::check_preconditions::{closure#0}": "the same test written as the predicate of Iterator::any",
-    "<op_greedy_fixed::GreedyFixed as %s>::matches_iter" % OC: "the repeated term has a fixed positive length (FIXED-LEN-POSITIVE, QUANT-LOWER): all its results at p are p+len",
-    "<op_reluctant_fixed::ReluctantFixedIterator as std::iter::Iterator>::next": "the repeated term has a fixed positive length: all its results at p are p+len",
+    "<op_greedy_fixed::GreedyFixed as %s>::matches_iter" % OC: "the repeated term has a fixed positive length (FIXED-LEN-POSITIVE, QUANT-LOWER): all its results at p are p+len, and it cannot match in ways that set different groups (FIXED-SINGLE-WAY; before 3fa5bbf it could - F32)",
+    "<op_reluctant_fixed::ReluctantFixedIterator as std::iter::Iterator>::next": "the repeated term has a fixed positive length: all its results at p are p+len, and it cannot match in ways that set different groups (FIXED-SINGLE-WAY)",
     "<op_unambiguous_repeat::UnambiguousRepeat as %s>::matches_iter" % OC: "built only for a single-character Atom/CharClass child (OPT-UNAMB-SITES), which has at most one result",
 }
 
